@@ -343,6 +343,19 @@ for _k, _v in {
     "C16": " Also: parse_expr returns only type-checked trees (typed-tree), the invariant the counted typing unwraps rest on.",
 }.items():
     ADDED[_k] = (ADDED.get(_k, "") + _v).strip()
+# round 19 and the observations triaged after it (session 7)
+for _k, _v in {
+    "C01": " Also: constant conditions are folded only through the compared operator tables (fold-scope, shared with C06); every from loop writes its counter after both bounds (skeleton).",
+    "C04": " Also: no path is re-spelled (backslash folded) on a platform whose separator is the slash (path-spelling).",
+    "C05": " Also: the parser hands an operator its operands as written (operands-as-written, shared with C15).",
+    "C06": " Also: the negation of a float text of all zeros keeps the sign.",
+    "C09": " Also: the implicit return is left out only when the last item of the body is ret (function-end).",
+    "C10": " Also: the module test of a field step looks at the type with its wrappers off.",
+    "C14": " Also: substring / insert / delete act on positions, never on the first occurrence of a text (by-position).",
+    "C16": " Also: every target shape the type checker accepts for a compound assignment has code in the generator (opassign-target).",
+    "C17": " Also: the program's result reaches main's exit status on every path (exit-status).",
+}.items():
+    ADDED[_k] = (ADDED.get(_k, "") + _v).strip()
 # round 18 and the observations triaged after it (session 7)
 for _k, _v in {
     "C02": " Also: the equality of class types compares their members (class-identity).",
